@@ -442,7 +442,19 @@ pub enum WriterCfg {
     /// action (used for a re-entrant encode of the same value: what a
     /// callback, a signal handler or a logging writer may do)
     Reentrant(u8),
+    /// monitored flat vector that stands for the patchable tail of a long
+    /// stream: `len()` reports `base` octets more than it holds (what a log
+    /// or stream writer that has flushed `base` octets reports); only the
+    /// tail can be patched
+    Based(u64),
+    /// monitored flat vector with room for this many octets beyond its
+    /// prefix: the append that does not fit panics (a full device; the
+    /// trait has no other way to refuse)
+    Full(usize),
 }
+
+/// Panic payload of a `Full` writer.
+pub struct WriterFull;
 
 impl WriterCfg {
     pub fn name(&self) -> &'static str {
@@ -451,6 +463,8 @@ impl WriterCfg {
             WriterCfg::Vec => "vec",
             WriterCfg::Paged(_) => "paged",
             WriterCfg::Reentrant(_) => "reentrant",
+            WriterCfg::Based(_) => "based",
+            WriterCfg::Full(_) => "full",
         }
     }
 }
@@ -475,6 +489,10 @@ pub struct SimWriter {
     /// (call index within the current value, action)
     pub reentry: Option<(u64, Box<dyn FnMut()>)>,
     calls_in_value: u64,
+    /// octets that `len()` reports in front of what is held
+    pub base: usize,
+    /// remaining room (`Full` writers)
+    room: Option<usize>,
 }
 
 impl SimWriter {
@@ -497,8 +515,16 @@ impl SimWriter {
             straddles: 0,
             reentry: None,
             calls_in_value: 0,
+            base: match cfg {
+                WriterCfg::Based(b) => *b as usize,
+                _ => 0,
+            },
+            room: None,
         };
         w.append(prefix);
+        if let WriterCfg::Full(n) = cfg {
+            w.room = Some(*n);
+        }
         w.calls = 0;
         w.value_start = w.cur_len();
         w
@@ -522,7 +548,7 @@ impl SimWriter {
     fn cur_len(&self) -> usize {
         match &self.real {
             Some(r) => r.data.len(),
-            None => self.len,
+            None => self.base.wrapping_add(self.len),
         }
     }
 
@@ -532,6 +558,12 @@ impl SimWriter {
         if let Some(r) = self.real.as_mut() {
             r.write_bytes(bytes);
             return;
+        }
+        if let Some(room) = self.room.as_mut() {
+            if bytes.len() > *room {
+                std::panic::panic_any(WriterFull);
+            }
+            *room -= bytes.len();
         }
         let mut rest = bytes;
         while !rest.is_empty() {
@@ -608,6 +640,10 @@ impl Writer for SimWriter {
         }
         // apply whatever lies inside the buffer, so that corruption of
         // earlier content is also visible in the final octets
+        let offset = match offset.checked_sub(self.base) {
+            Some(o) => o,
+            None => return, // in the flushed part: reported above, nothing to apply
+        };
         if self.page == usize::MAX {
             if let Some(p) = self.pages.first_mut() {
                 for (i, b) in bytes.iter().enumerate() {
